@@ -522,6 +522,7 @@ def gen_config(rng, tbl, max_ctx=4, max_tests=3, window_layout=None, fault_kinds
         "carrier": carrier,
         "layout": "streams" if len(contexts) == 1 and rng.chance(0.4) else "contexts",
         "share_document": rng.chance(0.3),
+        "build": rng.weighted([("direct", 7), ("from_calls", 1), ("from_config", 1), ("add_calls", 1), ("add_config", 1)]),
     }
 
 
